@@ -61,7 +61,8 @@ type c19Hist struct {
 	viol      map[string]int
 	watchdogs int64
 
-	marks sync.Map // file key (uint64) -> *c19Marks
+	marks  sync.Map // file key (uint64) -> *c19Marks
+	writes sync.Map // file key (uint64) -> *c19WriteLog
 }
 
 func (h *c19Hist) count(m map[string]int, k string) { h.mu.Lock(); m[k]++; h.mu.Unlock() }
@@ -295,9 +296,54 @@ type c19Case struct {
 	Resume    bool        `json:"resume"`
 	Verify    string      `json:"resume_verify"`
 	Partial   *c19Partial `json:"first_run,omitempty"`
+	// content cases only: one spec per entry of Tree.Entries (content class, destination before)
+	Files []c19FileSpec `json:"files,omitempty"`
 }
 
 func (c c19Case) class() string { return c.History + "/" + c.Sched.Class }
+
+func (c c19Case) spec(rel string) (c19FileSpec, bool) {
+	if len(c.Files) == len(c.Tree.Entries) {
+		for i, e := range c.Tree.Entries {
+			if e.Rel == rel {
+				return c.Files[i], true
+			}
+		}
+	}
+	return c19FileSpec{}, false
+}
+
+// fileBytes returns the source content of one file of the case.
+func (c c19Case) fileBytes(rel string, size int64) []byte {
+	if sp, ok := c.spec(rel); ok {
+		return c19MakeContent(sp.Content, rel, size, sp.Align, sp.Seed)
+	}
+	b := make([]byte, size)
+	vk.FillContent(c.Tree.Seed, rel, 0, b)
+	return b
+}
+
+// destBefore returns what the output path of rel held before any receiver of the case started.
+func (c c19Case) destBefore(rel string, src []byte) ([]byte, bool) {
+	if sp, ok := c.spec(rel); ok {
+		return c19MakeDest(sp, src)
+	}
+	return nil, false
+}
+
+// fileClass names the input class of one file for violation keys.
+func (c c19Case) fileClass(rel string) string {
+	if sp, ok := c.spec(rel); ok {
+		return "content-" + sp.Content + ":destination-" + sp.Dest
+	}
+	return "content-random:destination-absent"
+}
+
+// c19WriteLog counts the hits of recv.chunk.afterWrite per chunk index of one file.
+type c19WriteLog struct {
+	mu     sync.Mutex
+	counts map[uint32]int
+}
 
 type c19Wire struct {
 	begins  map[uint64][]transfer.FileBegin
@@ -511,8 +557,7 @@ func (h *c19Hist) firstRun(c c19Case, m manifest.Manifest, out string) bool {
 		h.count(h.notObs, "first-run: file not in the manifest")
 		return false
 	}
-	content := make([]byte, item.Size)
-	vk.FillContent(c.Tree.Seed, p.Rel, 0, content)
+	content := c.fileBytes(p.Rel, item.Size)
 	key := transfer.VerifC19FileKey(item)
 	mk := &c19Marks{set: map[uint32]bool{}, ch: make(chan struct{}, 1)}
 	h.marks.Store(key, mk)
@@ -653,8 +698,7 @@ func (h *c19Hist) judge(c c19Case, m manifest.Manifest, res c19RunRes, out strin
 		}
 		sizes[cb] = true
 		n := c19Ceil(it.Size, cb)
-		content := make([]byte, it.Size)
-		vk.FillContent(c.Tree.Seed, it.RelPath, 0, content)
+		content := c.fileBytes(it.RelPath, it.Size)
 		for _, f := range res.wire.frames {
 			if f.key != key || frameBad {
 				continue
